@@ -29,6 +29,10 @@ CLAIMED['C03'] = dict(
    text='Scoped. Seeded exploration of histories under the four log-pdf classes and PopulationFilterLogPosterior: the user mechanistic model first goes through a random valid configuration history (routes incl. indirect->direct, regimens, renames, output changes, sensitivity switches, copies), then value / value-with-sensitivities checks in both orders are interleaved with fix / release on the likelihood, regimen changes through get_submodels and solver failures (exception or non-finite output) injected at the same logical evaluation of both paths. Decided: the score returned with the sensitivities equals the plain score; finite <=> finite; gradient length = n_parameters. The k-th-partial-derivative clause is only input-sampled at the visited points by Richardson central differences with an error-aware margin (sign / index / missing-factor slips give O(1) discrepancies; a subtle 1e-6 error would pass). Sampling, not proof.',
    ref='DESIGN.md section 5 (C03)',
    note='Trusted: solver stand-in (exact LTI engine with own scaling-and-squaring expm; adaptive LSODA engine with looser tolerances). Points are kept of order one and evaluations whose model outputs sit at the round-off / tolerance level of the solver are skipped, because two solver objects legitimately disagree there. Compositions listed as open C17 findings (covariate model over pooled / heterogeneous) are not generated here.')
+CLAIMED['C15'] = dict(
+   text='Scoped. Seeded exploration of usage histories of a shared population model, a ProblemModellingController and the user mechanistic model (hierarchical likelihoods over k individuals, set_n_ids, controller set_data / set_population_model / get_log_posterior with per-individual dose rows, other sample sizes, fixes on sibling predictive models, caller-side regimen changes after hand-over), interleaved with seeded sampling from PredictiveModel, PopulationPredictiveModel (also the ones a controller returns), Prior/Posterior/PAM predictive models. Decided: every sample equals the same call on a fresh stack that has seen nothing (history independence); every table holds each (ID 1..n, time, observable) cell exactly once, filled, in ascending time order, with dose rows equal to get_dosing_regimen(final time) per ID; by intercepting the call into the underlying predictive model, the parameter vector handed down is one complete (chain, draw) row of the posterior of the requested individual / exactly the prior draw, one per sample, and a zero-weight model is never used. NOT decided: that samples follow the stated distributions (needs statistics).',
+   ref='DESIGN.md section 5 (C15)',
+   note='Trusted: solver stand-in; heterogeneous dimensions are excluded (their parameter count legitimately depends on the number of individuals); pooled dimensions are the open finding KF-C15-2 and are generated in 25% of runs only.')
 NA = {
  'C01': 'pure function of grids, observations and parameters: no history, schedule, fault or process in the statement; deciding it needs input generation against a reference likelihood (property-based testing), a different technique',
  'C02': 'pure function of composition, data and parameter vector; nothing for a simulator to control',
